@@ -15,8 +15,13 @@ Prof1 = Dict(Kind, Dict(Kind, CardDict))                      # property -> kind
 ProfBox2 = box("ProfBox2", Dict(Kind, Tup(Prof1, Prof1)))     # class -> (direct, inverse)
 ProfBox1 = box("ProfBox1", Dict(Kind, Prof1))
 CountsBox = box("CountsBox", Dict(Kind, Int))
-StratDI = schema("StratDI", [DI], {"_class_profile_dict": ProfBox2, "_class_counts_dict": CountsBox, "_shapes_namespace": Kind}, register=False)
-StratD = schema("StratD", [DS], {"_class_profile_dict": ProfBox1, "_class_counts_dict": CountsBox, "_shapes_namespace": Kind}, register=False)
+# the other configuration attributes of the strategy objects (never written by the filters; declared so that a change that starts reading one
+# of them is analysed instead of leaving the verified subset)
+_CFG = {"_instantiation_property_str": Kind, "_allow_opt_cardinality": Bool, "_disable_comments": Bool, "_keep_less_specific": Bool,
+        "_discard_useless_positive_closures": Bool, "_tolerance": Real, "_disable_or_statements": Bool, "_all_compliant_mode": Bool,
+        "_disable_exact_cardinality": Bool, "_allow_redundant_or": Bool}
+StratDI = schema("StratDI", [DI], dict({"_class_profile_dict": ProfBox2, "_class_counts_dict": CountsBox, "_shapes_namespace": Kind}, **_CFG), register=False)
+StratD = schema("StratD", [DS], dict({"_class_profile_dict": ProfBox1, "_class_counts_dict": CountsBox, "_shapes_namespace": Kind}, **_CFG), register=False)
 
 # number of cardinalities among the first i keys whose frequency reaches the threshold (defined by its recurrence)
 specfun("n_pass", [CardList, CardDict, Real, Real, Int], Int,
